@@ -297,7 +297,9 @@ func RunHistory(seed *CrashSeed, ops []HOp) *HistoryRun {
 	}
 	model := NewModel()
 	for _, td := range seed.Tables {
-		db.MustAuto(td.CreateSQL())
+		if f := db.CreateTable(td); f != nil {
+			panic("seed: " + f.String())
+		}
 		model.Create(td)
 	}
 	for _, s := range seed.Stmts {
